@@ -7,6 +7,30 @@ use std::fmt::Debug;
 use varlink::{GetInterfaceDescriptionArgs, GetInterfaceDescriptionReply, Reply, Request, ServiceInfo, StringHashMap, StringHashSet};
 
 const KEYS: &[&str] = &["", "a", "key", "ü", "日本", "with space", "q\"uote", "back\\slash", "nl\n", "tab\t", "\u{0}", "\u{1f}", "😀", "{}", "a.b", "null", "0", "very-long-key-xxxxxxxxxxxxxxxxxxxxxxxxxxxxxxxxxxxxxxxxxxxxxxxxxxxxxxxxxxxx"];
+/// Error names a reply can carry: the four standard ones, the same member names under other
+/// interfaces (an error is identified by its FULL name), near misses, and awkward strings.
+const ERR_NAMES: &[&str] = &[
+    "org.varlink.service.InvalidParameter",
+    "org.varlink.service.InterfaceNotFound",
+    "org.varlink.service.MethodNotFound",
+    "org.varlink.service.MethodNotImplemented",
+    "org.varlink.resolver.InterfaceNotFound",
+    "com.example.store.InvalidParameter",
+    "a.MethodNotFound",
+    "x.y.MethodNotImplemented",
+    "InvalidParameter",
+    "org.varlink.service.invalidparameter",
+    "org.varlink.service.InvalidParameterX",
+    "org.varlink.serviceX.InvalidParameter",
+    "org.varlink.service",
+    "org.varlink.service.",
+    " org.varlink.service.InvalidParameter",
+    "a.b.E",
+    "",
+    "\u{fc}.\u{e9}.\u{dc}n\u{ef}",
+    "a.b.E\"q\\",
+];
+
 const METHODS: &[&str] = &["org.varlink.service.GetInfo", "a.b.C", "", "nodot", "ü.ö.Ä", "x.y.Z\"\\\n"];
 
 fn gen_value(rng: &mut Rng, depth: usize) -> Value {
@@ -116,7 +140,8 @@ pub fn main(ctx: &Ctx) -> i32 {
         }
     }
     // ---- Reply
-    let errs: Vec<Option<&'static str>> = vec![None, Some("org.varlink.service.InvalidParameter"), Some("a.b.E"), Some("")];
+    let mut errs: Vec<Option<&'static str>> = vec![None];
+    errs.extend(ERR_NAMES.iter().map(|e| Some(*e)));
     for c in 0..3 {
         for e in &errs {
             for p in &params {
@@ -148,7 +173,13 @@ pub fn main(ctx: &Ctx) -> i32 {
         if let Err(e) = round_trip(&r) {
             fail(ctx, "c17:request-round-trip", "Request", format!("{:?}", r), e);
         }
-        let r = Reply { continues: opt_flag(rng.below(3)), error: None, parameters: Some(p.clone()) };
+        let err: Option<String> = match rng.below(4) {
+            0 => Some((*rng.pick(ERR_NAMES)).to_string()),
+            // a random interface with a random member, often one of the four standard member names
+            1 => Some(format!("{}.{}", rng.pick_str(&["org.varlink.resolver", "com.example.store", "org.varlink", "a", "org.varlink.service.x", "io.b-b.c9"]), rng.pick_str(&["InterfaceNotFound", "InvalidParameter", "MethodNotFound", "MethodNotImplemented", "Err", "NotFound", "X"]))),
+            _ => None,
+        };
+        let r = Reply { continues: opt_flag(rng.below(3)), error: err.map(|s| s.into()), parameters: Some(p.clone()) };
         if let Err(e) = round_trip(&r) {
             fail(ctx, "c17:reply-round-trip", "Reply", format!("{:?}", r), e);
         }
@@ -196,8 +227,10 @@ pub fn main(ctx: &Ctx) -> i32 {
             }
         }
     }
-    for f in 0..16 {
+    for f in 0..(16 + 4 * ERR_NAMES.len()) {
         let mut o = Map::new();
+        let err_name: &str = if f < 16 { "a.b.Err" } else { ERR_NAMES[(f - 16) / 4] };
+        let f = if f < 16 { f } else { 4 + ((f - 16) % 4) };
         match f & 3 {
             1 => {
                 o.insert("continues".into(), json!(true));
@@ -212,7 +245,7 @@ pub fn main(ctx: &Ctx) -> i32 {
         }
         match (f >> 2) & 3 {
             1 => {
-                o.insert("error".into(), json!("a.b.Err"));
+                o.insert("error".into(), json!(err_name));
             }
             2 => {
                 o.insert("error".into(), Value::Null);
